@@ -9,7 +9,7 @@ CHECKS = {
          "Sound static analysis of a structural necessary condition: every accepting path of VerifyRequest passes the success edge of the request-signature check and of the blinded-key equality, bound to the request's own fields; the cache is written only behind both. Holds for all inputs because it quantifies over paths. It does not prove that ECDSA rejects forgeries.",
          "Trusts go/ssa dominators, the checker's term evaluator, and crypto/elliptic, math/big, crypto/sha512 behaving as documented.",
          "DESIGN.md §4 C06"),
- "C07": ("guard-dominance (must-pass-through) on SSA with symbolic argument bindings + decoder read-sequence extraction",
+ "C07": ("guard-dominance (must-pass-through) on SSA with symbolic argument bindings + decoder read-sequence extraction + inductive backward-scan rule for the origin unpadder",
          "Sound static analysis of structural necessary conditions: every path of RateLimitedIssuer.Evaluate that returns a response passes the success edges of complete parse, HPKE open under the issuer's own key with the request key in the associated data, registered-origin lookup and request-signature verification over all fields; BlindSign/Seal sit behind those edges; the request decoder checks every read and rejects trailing data. Quantifies over paths, hence over all inputs. Does not prove AEAD/ECDSA soundness (every single-bit change rejected).",
          "Trusts go/ssa dominators, this checker's term/reader extraction, go-hpke, circl blindrsa and crypto/elliptic behaving as documented.",
          "DESIGN.md §4 C07"),
@@ -49,15 +49,15 @@ CHECKS = {
          "Sound static analysis of a sufficient-and-necessary structural condition for race freedom among the listed calls: no may-write reaches memory of or reachable from a shared root or a package-level variable except synchronised containers, Once-protected tables and constructor-forced lazy initialisation, and no result aliases mutable package-level state. Two genuine violations inside circl v1.3.7 (in-place normalisation of the shared P-384 public-key element) are recorded as known findings. Three reviewed exceptions document call-graph/field-insensitivity artefacts, each confirmed race-free dynamically once.",
          "Trusts go/ssa, VTA call graph, effects.go, the reviewed std write table and exception table (printed in evidence); std concurrency guarantees as documented.",
          "DESIGN.md §4 C17"),
- "C04": ("writer/reader layout agreement: symbolic byte-layout terms of encoders vs checked read sequences of decoders on SSA, widths from go/types constants; cache-discipline dominance; tag checks; batch walker structure",
+ "C04": ("writer/reader layout agreement: symbolic byte-layout terms of encoders vs checked read sequences of decoders on SSA, widths from go/types constants; cache-discipline dominance; tag checks; batch walker structure; CFG rejecting-edge classification for length-only refusals",
          "Sound static analysis of structural necessary conditions of round-tripping: for every wire structure the encoder's layout term and the decoder's checked read sequence on accepting paths match the structure's layout (fields, order, prefix kinds, widths by constant value) and decoded fields are assigned from the bytes read; every method that can change what Marshal reads resets the encoding cache on every success path and nothing re-fills it before the return; every encoding cache is filled only by its own Marshal (never seeded with input bytes); each request decoder requires its own type tag; the generic batch walkers map tags to the matching decoder, reject others, advance by the consumed length, decode each element from within the declared list, and the response list uses per-type fixed lengths. Does not decide value-level round trips (e.g. commas in OriginInfo) or cryptobyte's own correctness.",
          "Trusts go/types, go/ssa, this checker's term and reader extractors, the layout table in c04.go (from the repository's struct comments and constants), cryptobyte.",
          "DESIGN.md §4 C04"),
- "C05": ("slot/index discipline on SSA: natural loops, dominance facts on slot stores, symbolic binding of lookup/key-match/evaluate arguments, emit-layout term with branch arms, error-discipline query",
+ "C05": ("slot/index discipline on SSA: natural loops, dominance facts on slot stores, symbolic binding of lookup/key-match/evaluate arguments, emit-layout term with branch arms, error-discipline query, backward slice of the Evaluate guards for loop-carried state (iteration independence)",
          "Sound static analysis of structural necessary conditions: one slot per request written only at the request's own index with either an empty value or the matched issuer's successful result; lookup by the request's type and last byte of the key id; a failing issuer neither ends the search nor the batch; present/absent status derived from slot emptiness with the same index; decoder mirrors the layout; the constructor registers every issuer argument under its own type; the basic issuers' Evaluate succeed only behind their decode/evaluate/encode success edges with no error dropped. Does not decide that a present entry finalizes to a valid token (C01/C02).",
          "Trusts go/ssa dominators/loops, this checker's term evaluator; registered issuers behave like the repository's (non-empty response on success).",
          "DESIGN.md §4 C05"),
- "C18": ("symbolic ASN.1 layout terms (cryptobyte builder trees with OIDs by value), checked read sequences, return-term bindings on SSA",
+ "C18": ("symbolic ASN.1 layout terms (cryptobyte builder trees with OIDs by value), checked read sequences, return-term bindings on SSA, EncapKey decoder/encoder field agreement",
          "Sound static analysis of structural necessary conditions: MarshalTokenKeyPSSOID's builder term equals the prescribed RSASSA-PSS SPKI tree (SHA-384, MGF1-SHA-384, salt 48; OIDs by value, single initialisation); UnmarshalTokenKey performs the checked SEQ{SEQ,BITSTRING{SEQ{INT,INT}}} reads and returns the integers read; every issuer's TokenKeyID is a freshly computed SHA-256 of its serialized public key; type-1/2/5 requests carry the last byte of the id; the type-3 name key id is SHA-256 of the EncapKey encoding; no key type's Marshal returns a cache seeded outside Marshal. Does not decide DER round trips for every modulus/exponent (encoding/asn1, cryptobyte).",
          "Trusts go/ssa, this checker's term and reader extractors, encoding/asn1 and cryptobyte as documented.",
          "DESIGN.md §4 C18"),
